@@ -858,12 +858,14 @@ impl<const N: usize> udp__AEADCipherCodec<N> {
                     /*R2*/
                     a22udp__aes_decrypt_in_place(self.kind, context.key, &mut eih)?;
                     eih.v_xor_with(session_id_packet_id);
-                    proof { assert(eih@ == udp22_user_hash(self.kind, context.key@, s0)); }
+                    proof {
+                        assert(eih@ == udp22_user_hash(self.kind, context.key@, s0));
+                        if context.user_manager->0.lookup(udp22_user_hash(self.kind, context.key@, s0)) is None { lemma_udp22_server_nouser(self.kind, *context, s0); }
+                    }
                     if let Some(_user) = user_manager.unwrap().clone_user_by_hash(&eih) {
                         /*R2*/
                         user = Some(_user);
                     } else {
-                        proof { lemma_udp22_server_nouser(self.kind, *context, s0); }
                         return Err(verif_err());
                     }
                 }
